@@ -165,7 +165,7 @@ def specs(rng, tier, wid, nw, env):
             k += 1
             if k % nw == wid: yield ('sweep', grp, lo, min(lo + 3, top), rng.getrandbits(40))
     # (6) mpz level + seeded random part
-    n = (12000 if tier == 'quick' else 150000)
+    n = (12000 if tier == 'quick' else 600000)
     for i in range(n):
         c = rng.random()
         if c < 0.45:
